@@ -776,9 +776,124 @@ static bool is_generic_list_runtime_fn(const char *name) {
     return true;
 }
 
+/* ============================================================================
+ * HELPER: Operands in source order (SPECIFICATION 4.9: left to right)
+ * C leaves the order of call arguments and operator operands to the compiler.
+ * It can be observed only when an operand contains a call and another operand
+ * contains a call too or reads a variable that can be assigned; then every such
+ * operand but the last is evaluated into a temporary first:
+ *   f(g(), h())   ->   ({ __auto_type _nl_arg_0 = g(); f(_nl_arg_0, h()); })
+ * ============================================================================ */
+
+/* 0: order cannot matter; 1: reads a variable that can be assigned; 2: contains a call */
+static int expr_order_sensitivity(ASTNode *expr, Environment *env) {
+    int level = 0, sub = 0;
+    ASTNode **operands = NULL;
+    int operand_count = 0;
+    if (!expr) return 0;
+
+    switch (expr->type) {
+        case AST_NUMBER: case AST_FLOAT: case AST_STRING: case AST_BOOL: case AST_QUALIFIED_NAME:
+            return 0;
+        case AST_IDENTIFIER: {
+            Symbol *sym = env_get_var(env, expr->as.identifier);
+            return (sym && sym->is_mut) ? 1 : 0;
+        }
+        case AST_FIELD_ACCESS:
+            return expr_order_sensitivity(expr->as.field_access.object, env);
+        case AST_TUPLE_INDEX:
+            return expr_order_sensitivity(expr->as.tuple_index.tuple, env);
+        case AST_PREFIX_OP:
+            operands = expr->as.prefix_op.args; operand_count = expr->as.prefix_op.arg_count; break;
+        case AST_ARRAY_LITERAL:
+            operands = expr->as.array_literal.elements; operand_count = expr->as.array_literal.element_count; break;
+        case AST_TUPLE_LITERAL:
+            operands = expr->as.tuple_literal.elements; operand_count = expr->as.tuple_literal.element_count; break;
+        case AST_STRUCT_LITERAL:
+            operands = expr->as.struct_literal.field_values; operand_count = expr->as.struct_literal.field_count; break;
+        case AST_UNION_CONSTRUCT:
+            operands = expr->as.union_construct.field_values; operand_count = expr->as.union_construct.field_count; break;
+        default:
+            return 2;
+    }
+    for (int i = 0; i < operand_count && level < 2; i++) {
+        sub = expr_order_sensitivity(operands[i], env);
+        if (sub > level) level = sub;
+    }
+    return level;
+}
+
+static bool build_operands_in_order(WorkList *list, ASTNode *expr, ASTNode **operands, int operand_count, Environment *env) {
+    static int temp_counter = 0;
+    int sensitive = 0, calls = 0, last = -1;
+
+    for (int i = 0; i < operand_count; i++) {
+        int level = expr_order_sensitivity(operands[i], env);
+        if (level > 0) { sensitive++; last = i; }
+        if (level == 2) calls++;
+    }
+    if (sensitive < 2 || calls == 0) return false;
+
+    ASTNode **saved = malloc(sizeof(ASTNode*) * (size_t)last);
+    ASTNode *temps = calloc((size_t)last, sizeof(ASTNode));
+    char (*names)[32] = malloc(32 * (size_t)last);
+    if (!saved || !temps || !names) {
+        fprintf(stderr, "Error: Out of memory ordering operands\n");
+        exit(1);
+    }
+
+    emit_literal(list, "({ ");
+    for (int i = 0; i < last; i++) {
+        ASTNode *operand = operands[i];
+        saved[i] = operand;
+        if (expr_order_sensitivity(operand, env) == 0) continue;
+
+        snprintf(names[i], sizeof(names[i]), "_nl_arg_%d", temp_counter++);
+        emit_formatted(list, "__auto_type %s = ", names[i]);
+        build_expr(list, operand, env);
+        emit_literal(list, "; ");
+
+        /* The temporary answers the questions the emitters ask about an operand */
+        Type type = check_expression(operand, env);
+        Symbol *source = (operand->type == AST_IDENTIFIER)
+                             ? env_get_var_visible_at(env, operand->as.identifier, operand->line, operand->column) : NULL;
+        const char *struct_name = source ? source->struct_type_name : get_struct_type_name(operand, env);
+        env_define_var_with_type_info(env, names[i], type,
+                                     type == TYPE_ARRAY ? infer_array_element_type(operand, env) : TYPE_UNKNOWN,
+                                     source ? source->type_info : NULL, false, create_void());
+        Symbol *temp_sym = env_get_var(env, names[i]);
+        if (temp_sym && struct_name) temp_sym->struct_type_name = strdup(struct_name);
+
+        temps[i].type = AST_IDENTIFIER;
+        temps[i].line = operand->line;
+        temps[i].column = operand->column;
+        temps[i].as.identifier = names[i];
+        operands[i] = &temps[i];
+    }
+    build_expr(list, expr, env);   /* one operand at most is left whose order matters */
+    emit_literal(list, "; })");
+
+    for (int i = 0; i < last; i++) operands[i] = saved[i];
+    free(saved);
+    free(temps);
+    free(names);
+    return true;
+}
+
 static void build_expr(WorkList *list, ASTNode *expr, Environment *env) {
     if (!expr) return;
-    
+
+    /* Operands whose order of evaluation can be observed go through temporaries (not `and`/`or`:
+     * their right operand is evaluated conditionally) */
+    if (expr->type == AST_CALL &&
+        build_operands_in_order(list, expr, expr->as.call.args, expr->as.call.arg_count, env)) return;
+    if (expr->type == AST_MODULE_QUALIFIED_CALL &&
+        build_operands_in_order(list, expr, expr->as.module_qualified_call.args, expr->as.module_qualified_call.arg_count, env)) return;
+    if (expr->type == AST_ARRAY_LITERAL &&
+        build_operands_in_order(list, expr, expr->as.array_literal.elements, expr->as.array_literal.element_count, env)) return;
+    if (expr->type == AST_PREFIX_OP && expr->as.prefix_op.op != TOKEN_AND && expr->as.prefix_op.op != TOKEN_OR &&
+        build_operands_in_order(list, expr, expr->as.prefix_op.args, expr->as.prefix_op.arg_count, env)) return;
+
     switch (expr->type) {
         case AST_NUMBER:
             emit_formatted(list, "%lldLL", expr->as.number);
